@@ -191,20 +191,20 @@ def _atten_models():
 
 def _atten_shapes(cls):
     ice = new(cls)
-    z = real("z")
-    f = real("f")
-    assume(And(f > 0, z <= 0, z >= -3000))
+    z = real("z", -3000, 0)
+    f = real("f", 1e6, 5e9)
+    assume(f > 0)
     s = ice.attenuation_length(z, f)
     prove("scalar-positive", s > 0)
-    # row: scalar depth, array of frequencies
-    fs = symarr("fs")
+    # row: scalar depth, array of frequencies (in any order)
+    fs = symarr("fs", sample=(1e7, 3e9))
     j = fresh_index("j", len(fs))
     assume(fs[j] > 0)
     row = ice.attenuation_length(z, fs)
     prove("row-length", len(row) == len(fs))
     prove("row-entry-equals-scalar", eq(row[j], ice.attenuation_length(z, fs[j])))
     # column: array of depths, scalar frequency
-    zs = symarr("zs")
+    zs = symarr("zs", sample=(-3000, 0))
     i = fresh_index("i", len(zs))
     col = ice.attenuation_length(zs, f)
     prove("column-length", len(col) == len(zs))
@@ -233,11 +233,11 @@ def atten_arasim():
 @harness(clause="attenuation-shapes")
 def atten_uniform():
     ice = new("pyrex.ice_model.UniformIce", 1.5)
-    z = real("z")
-    f = real("f")
+    z = real("z", -3000, 0)
+    f = real("f", 1e6, 5e9)
     assume(f > 0)
     prove("scalar-positive", ice.attenuation_length(z, f) > 0)
-    fs = symarr("fs")
+    fs = symarr("fs", sample=(1e7, 3e9))
     j = fresh_index("j", len(fs))
     assume(fs[j] > 0)
     row = ice.attenuation_length(z, fs)
